@@ -387,6 +387,8 @@ func (m *UnexportedMethodMocker) Apply(callback interface{}) {
 		_, _ = unexports2.FindFuncByName(name)
 	}
 
+	// Apply 会覆盖之前设定的 When 条件和 Return
+	m.when = nil
 	callback, _ = interceptDebugInfo(callback, nil, m)
 	m.applyByName(name, callback)
 	logger.Consolefc(logger.DebugLevel, "mocker [%s] apply.", logger.Caller(5), m.String())
@@ -451,6 +453,8 @@ func (m *UnexportedFuncMocker) objName() string {
 // mock 回调函数, 需要和 mock 模板函数的签名保持一致
 // 方法的参数签名写法比如: func(s *Struct, arg1, arg2 type), 其中第一个参数必须是接收体类型
 func (m *UnexportedFuncMocker) Apply(callback interface{}) {
+	// Apply 会覆盖之前设定的 When 条件和 Return
+	m.when = nil
 	callback, _ = interceptDebugInfo(callback, nil, m)
 	m.applyByName(m.objName(), callback)
 	logger.Consolefc(logger.DebugLevel, "mocker [%s] apply.", logger.Caller(5), m.String())
